@@ -44,21 +44,21 @@ S9 = ["s%d" % i for i in range(9)]
 PROPERTIES = {
     "C01": {
         "level": "proof",
-        "verus_units": ["arith_widen", "arith128", "fracops"],
+        "verus_units": ["arith_widen", "arith128", "widediv", "fracops"],
         "kani": _mods("arith8", ["h_i8", "h_u8"], ["mul_overflow_all_fracs", "div_overflow_all_fracs"])
                 + ["widediv::div_rem_from_u8", "widediv::div_rem_from_i8", "widediv::div_rem_from_i8_min_by_minus_one"],
         "explanation": "mul_overflow/div_overflow of the 8..64-bit primitives verified (Verus) against R_mul/R_div with symbolic frac_nbits; "
                        "Kani twins on the 8-bit instantiation",
-        "not_covered": ["wide_div.rs (div_half / normalize / div_rem_from): contract assumed in unit arith128; verified by Kani on the 8-bit instantiation of the macro bodies only"],
+        "not_covered": ["the u8..u64 instances of wide_div.rs (not used by the library's arithmetic) are covered by the 8-bit Kani twins only; the 128-bit instance is proved in unit widediv"],
     },
     "C02": {
         "level": "proof",
-        "verus_units": ["arith_widen", "arith128", "nofrac", "fracops"],
+        "verus_units": ["arith_widen", "arith128", "widediv", "nofrac", "fracops"],
         "kani": _mods("arith8", ["i4f4", "i0f8", "u4f4", "u0f8"], FORMS) + ["arith8::abs_forms_i8"],
         "kani_thorough": _mods("arith8", ["i8f0", "u8f0"], FORMS),
         "explanation": "neg/abs/add/sub/mul_int/div_int in the four overflow forms verified for all ten families (Verus, unit nofrac); "
                        "mul/div helpers (unit arith_widen); the mul/div forms of fixed_frac! are confirmed by Kani twins on 8-bit layouts",
-        "not_covered": ["WideDivRem::div_rem_from contract (wide_div.rs) is assumed by the 128-bit division; Kani verifies the 8-bit instantiation of the same macro bodies"],
+        "not_covered": [],
     },
     "C03": {
         "level": "proof",
@@ -86,9 +86,10 @@ PROPERTIES = {
         "level": "proof",
         "kani": ["float::check_to_f32", "float::check_to_f64", "float::check_kind_f32", "float::check_kind_f64",
                  "tofixed::check_tfh_i32", "tofixed::check_tfh_i64", "tofixed::cover_tfh",
-                 "floatglue::i8_from_f32", "floatglue::u8_from_f32", "floatglue::i8_from_f64", "floatglue::u8_from_f64",
+                 "floatglue::wrapping_is_overflowing_value",
                  "floatglue::nan_panics_in_saturating", "floatglue::nan_panics_in_wrapping", "floatglue::inf_panics_in_overflowing",
-                 "floatglue::i8_to_float", "floatglue::u8_to_float", "floatglue::u128_to_float", "floatglue::i64_to_float"],
+                 "floatglue::i8_to_float", "floatglue::u8_to_float", "floatglue::u128_to_float", "floatglue::i64_to_float"]
+                + _mods("floatglue", ["g%d" % i for i in range(9)], ["i8_from_f32", "u8_from_f32", "i8_from_f64", "u8_from_f64"]),
         "explanation": "from_to_float_helper equals the IEEE-754 round-to-nearest-even encoder bit for bit, and to_float_kind equals the exact "
                        "rounding of the decoded float, for every bit pattern and all 507 layouts (Kani function contracts, symbolic layout)",
         "bounded_parts": ["policy glue (private_*_from_float_helper, to_num::<f32/f64>): verified on the 8-bit families (all layouts, every float bit pattern) and two wider layouts; other widths share the macro body"],
@@ -120,7 +121,7 @@ PROPERTIES = {
     },
     "C11": {
         "level": "proof",
-        "verus_units": ["arith_widen", "arith128", "nofrac", "fracops", "round@*", "transc"],
+        "verus_units": ["arith_widen", "arith128", "widediv", "nofrac", "fracops", "round@*", "transc"],
         "kani": [{"harness": h, "classes": ["panic"]} for h in
                  _mods("arith8", ["i4f4", "i0f8", "u4f4", "u0f8"], FORMS) + ["arith8::abs_forms_i8"] + TFH
                  + ["float::check_to_f32", "float::check_to_f64", "float::check_kind_f32", "float::check_kind_f64"]
@@ -162,12 +163,11 @@ PROPERTIES = {
         "kani": ["transc::exp_i9f23", "transc::sin_i9f23", "transc::cos_i9f23", "transc::cos_i32f32"],
         "kani_thorough": ["transc::sqrt_i9f23", "transc::log2_i9f23", "transc::ln_i9f23", "transc::sqrt_u9f23", "transc::tan_i9f23",
                           "transc::sin_i32f32", "transc::sin_i64f64", "transc::exp_i32f32"],
-        "explanation": "exp, pow, powi, ln, log2 verified (Verus) as written, generic over every supported (S, D), against trait-level contracts of "
+        "explanation": "sqrt (Newton-loop invariant), exp, pow, powi, ln, log2 verified (Verus) as written, generic over every supported (S, D), against trait-level contracts of "
                        "Fixed: no panic-class obligation remains, Err for non-positive logarithms; the conventions 0^y, x^0, x^1 of pow / powi are "
                        "postconditions.  sin, cos, tan, sqrt, log2_inner (iterator adapters / Newton loop) by Kani on I9F23 (whole domain resp. "
                        "|x| <= 200) and on I32F32 / I64F64 for |x| <= 200",
-        "not_covered": ["sqrt for types other than I9F23 / U9F23 (Newton-loop invariant not proved generically)",
-                        "sin / cos / tan for types other than I9F23, I32F32, I64F64"],
+        "not_covered": ["sin / cos / tan / cordic_rotation / log2_inner (iterator adapters) for types other than I9F23, I32F32, I64F64"],
         "assumptions": ["trait-level contracts of Fixed / FixedSigned are the statements proved for the inherent methods in units nofrac / fracops; "
                         "the trait_delegate! forwarders are not verified",
                         "axioms ax_from_const, ax_from_src, ax_cmp_const (conversions from the I9F23 constants are lossless, cross-type comparison is exact: C04 / C03)",
@@ -176,9 +176,11 @@ PROPERTIES = {
     "C17": {
         "level": "proof",
         "verus_units": ["transc"],
-        "kani": ["transc::exp_i9f23", "transc::sin_i9f23", "transc::cos_i9f23", "transc::cos_i32f32", "transc::sin_ticks_i9f23_whole_domain"],
+        "kani": ["transc::exp_i9f23", "transc::sin_i9f23", "transc::cos_i9f23", "transc::cos_i32f32",
+                 {"harness": "transc::sin_ticks_i9f23_whole_domain", "unwind_is_violation": True}],
         "kani_thorough": ["transc::sqrt_i9f23", "transc::log2_i9f23", "transc::ln_i9f23", "transc::sqrt_u9f23", "transc::tan_i9f23",
-                          "transc::sin_i32f32", "transc::sin_i64f64", "transc::exp_i32f32", "transc::sin_ticks_i32f32_whole_domain"],
+                          "transc::sin_i32f32", "transc::sin_i64f64", "transc::exp_i32f32",
+                          {"harness": "transc::sin_ticks_i32f32_whole_domain", "unwind_is_violation": True}],
         "explanation": "every Kani harness reads the hook iteration counter after the call and asserts ticks <= 4 * width + 64 (loops closed by "
                        "unwinding assertions); in the generic Verus unit every loop is a `for` over a range bounded by frac_nbits() <= 128",
         "not_covered": ["pow (= exp o ln, each bounded) has no harness of its own; types other than I9F23 / I32F32 / I64F64 for the data-dependent loops "
